@@ -55,8 +55,14 @@ func envOr(k, d string) string {
 	return d
 }
 
+// scratchDirs are removed on every way out, os.Exit included.
+var scratchDirs []string
+
 func trouble(format string, a ...any) {
 	fmt.Fprintf(os.Stderr, "hapsim: "+format+"\n", a...)
+	for _, d := range scratchDirs {
+		os.RemoveAll(d)
+	}
 	os.Exit(2)
 }
 
@@ -167,6 +173,7 @@ func prepare(quiet bool) string {
 		trouble("scratch: %v", err)
 	}
 	defer os.RemoveAll(scratch)
+	scratchDirs = append(scratchDirs, scratch)
 	run := func(dir string, name string, args ...string) {
 		cmd := exec.Command(name, args...)
 		cmd.Dir = dir
